@@ -655,4 +655,7 @@ def run(ck, prog):
     n7 = rule_r7(ck, prog)
     if not n7:
         ck.holds('C09.R7', prog.function('trace::propagation::HttpTraceContext::Extract'), 'no-static-locals', None, 'no function-local statics in the analysed API functions')
+    from . import c16
+    ck.doc('C16.R5', '(shared rule, see C16) HttpTraceContext is a function of (carrier, given context): no thread state, Extract only installs into / returns its context parameter', 4)
+    c16.rule_r5_purity(ck, prog, classes=('trace::propagation::HttpTraceContext',))
     return {}
